@@ -11,7 +11,7 @@ CLOCKS = ["fine", "coarse", "coarse_long", "constant"]
 
 class C21(Prop):
   id = "C21"
-  quick_examples = 400
+  quick_examples = 600
   thorough_examples = 5000
   rule = ("Hypothesis-generated histories on a decorated chart hosted on an instrumented "
           "HsmWithQueues with live_spy and/or live_trace on and harness callbacks registered (in half of the cases "
